@@ -139,13 +139,21 @@ def run_case(ctx, rng, pandas, s, S, det, tensors, nonvan, e, relrows, outcome, 
     # (a FILE named like the system in the working directory is not generated: the statement makes a path to a relations
     #  file take precedence, so such a file would legitimately be read as the relations)
     df = build_table(pandas, rng, S, rows, extra_bad, upper=(env == "upper"), ints=(env == "ints"), extras=(env == "extras"))
+    zero_supplied = None
+    if e["vanishing"] and env in ("plain", "upper", "extras") and rng.random() < 0.4:
+        # the user also lists a component that vanishes by symmetry, as zeros: consistent, and omitted from the result like every
+        # component below the drop tolerance
+        zero_supplied = int(rng.choice(sorted(e["vanishing"])))
+        nm = SYMS[zero_supplied - 1].upper() if env == "upper" else SYMS[zero_supplied - 1]
+        df[nm] = 0.0
     if first_int is not None:
         c0 = SYMS[first_int - 1]
         df[c0] = df[c0].round().astype("int64")
         df = df[[c0] + [c for c in df.columns if c != c0]]
     want = outcome[(det, gross, ign_rank, ign_res)]
     case = {"system": s, "supplied": [SYMS[n - 1] for n in sorted(S)], "det": det, "gross": gross, "bad": extra_bad,
-            "ignore_rank": ign_rank, "ignore_residuals": ign_res, "env": env, "rows": nrows}
+            "ignore_rank": ign_rank, "ignore_residuals": ign_res, "env": env, "rows": nrows,
+            "explicit_zero_column": None if zero_supplied is None else SYMS[zero_supplied - 1]}
     trivial = det and set(S) == nonvan and not gross and not ign_rank and not ign_res and env == "plain"
     ctx.count(case, nontrivial=not trivial)
     sig = {"system": s, "env": env, "det": det, "gross": gross}
@@ -154,7 +162,9 @@ def run_case(ctx, rng, pandas, s, S, det, tensors, nonvan, e, relrows, outcome, 
     if env == "cwd_dir":
         (work / s).mkdir()
     elif env == "relfile":
-        rel = work / "my_relations.txt"
+        sub = work / str(rng.choice(["Crystal Data", "MgSiO3", "relations"]))      # paths are case-sensitive and may contain blanks
+        sub.mkdir()
+        rel = sub / str(rng.choice(["My_Relations.TXT", "my_relations.txt", "Hexagonal-like.rel"]))
         shutil.copy(fillspec.CONSTRAINTS / s, rel)
         system_arg = str(rel)
     elif env == "relfile_dot":
@@ -247,7 +257,7 @@ def cli_cases(ctx, rng, exports, by, tmp):
                 if flags == ["@relations-file"]:
                     # a path to a relations file in place of the system name, through the command line
                     flags = []
-                    rel = work / "relations_of_my_crystal.txt"
+                    rel = work / "Relations_of_My_Crystal.txt"
                     shutil.copy(fillspec.CONSTRAINTS / s, rel)
                     sysarg = str(rel)
                 cols = [SYMS[k - 1] for k in sorted(S)]
